@@ -1029,7 +1029,7 @@ func (cx *c19Ctx) ruleR3() {
 	}
 	r.Count("r3_allowedroutes_stores", nStores)
 	r.Count("r3_allowedroutes_loads", nLoads)
-	r.Require(nStores >= 2, "floor: fewer than 2 stores to AllowedRoutes through a Handler (have %d)", nStores)
+	r.Require(nStores >= 1, "floor: no store to AllowedRoutes through a Handler found")
 	// callers of the mutators: only functions that perform the dynamic-route operation
 	dyn := func(fn *ssa.Function, name string) bool {
 		for _, f := range kit.WithClosures(kit.TopLevel(fn)) {
@@ -1056,7 +1056,7 @@ func (cx *c19Ctx) ruleR3() {
 		}
 	}
 	r.Count("r3_mutator_call_sites", nCallers)
-	r.Require(nCallers >= 2, "floor: AddAllowedRoute/RemoveAllowedRoute have fewer than 2 static call sites (have %d)", nCallers)
+	r.Require(nCallers >= 1, "floor: AddAllowedRoute/RemoveAllowedRoute have no static call site")
 }
 
 func c19InExit(fn *ssa.Function) bool { return kit.FuncPkgPath(fn) == kit.PkgPath("internal/exit") }
